@@ -280,6 +280,7 @@ func runC09(c *core.C) {
 	l := tw.SetupClients(0, 1)
 	tw.SetupConnection(l, 0)
 	tch := tw.SetupChannel(l, "transfer", "transfer", transfertypes.V1, channeltypes.UNORDERED)
+	tw.RegisterCounterparties(l)
 	tw.Flatten()
 	sender := wk.Chains[0].TC.SenderAccount.GetAddress()
 	recvAddr := sdk.AccAddress([]byte("verif-receiver-00000"))
@@ -423,10 +424,78 @@ func runC09(c *core.C) {
 		}
 		c.Set("bank_calls_voucher-returns", W)
 	}
+	// ---- part T2: the IBC v2 transfer stack (rate limiting v2 -> transfer v2) with bank faults, client and alias routes ----
+	t2Evals := 0
+	for _, rt := range []struct{ name, src, dst string }{{"v2-client", l.ClientA, l.ClientB}, {"v2-alias", tch.ChanA, tch.ChanB}} {
+		for _, tc := range cases {
+			w := tw.Fork()
+			data := transfertypes.NewFungibleTokenPacketData(sdk.DefaultBondDenom, "7", sender.String(), tc.receiver, "")
+			bz, err := transfertypes.MarshalPacketData(data, transfertypes.V1, transfertypes.EncodingJSON)
+			if err != nil {
+				c.Broken("cannot encode v2 transfer data: %v", err)
+				return
+			}
+			payload := channeltypesv2.NewPayload("transfer", "transfer", transfertypes.V1, transfertypes.EncodingJSON, bz)
+			tsec := uint64(w.CS[0].TimeNs()/1e9) + 3600
+			seq, r := w.SendV2(0, rt.src, tsec, sender.String(), payload)
+			ksim.MustOK("c09 v2 transfer "+rt.name+"/"+tc.name, r)
+			pkt := channeltypesv2.NewPacket(seq, rt.src, rt.dst, tsec, payload)
+			w.Sync(1, l.ClientB, 0)
+			if tc.prep != nil {
+				tc.prep(w)
+			}
+			fb := &faultBank{BankKeeper: realBank}
+			tk.BankKeeper = fb
+			clean := w.Fork()
+			rr := clean.RecvV2(1, 0, pkt, clean.ClientLatest(1, l.ClientB))
+			tk.BankKeeper = realBank
+			if rr.Class != ksim.OK {
+				c.Broken("v2 transfer receive (%s/%s) failed outright: %s %v", rt.name, tc.name, rr, rr.Err)
+				return
+			}
+			W := fb.calls
+			recvKey := "ibc/" + string(hostv2.PacketReceiptKey(rt.dst, seq))
+			ackKey := "ibc/" + string(hostv2.PacketAcknowledgementKey(rt.dst, seq))
+			errAck := string(channeltypesv2.CommitAcknowledgement(channeltypesv2.NewAcknowledgement(channeltypesv2.ErrorAcknowledgement[:])))
+			isErr := func(w2 *ksim.World) bool { return w2.DumpStores(1, c09Stores)[ackKey] == errAck }
+			appDiff := without(diffOn(w, clean, 1), recvKey, ackKey)
+			t2Evals++
+			distinct["transfer-"+rt.name+"/"+tc.name+"/fault-free"] = true
+			if tc.name == "native-arrives" {
+				if isErr(clean) || len(appDiff) == 0 || clean.DumpStores(1, c09Stores)[ackKey] == "" {
+					c.Violation("transferv2-success-lost-state/"+rt.name, fmt.Sprintf("fault-free v2 receive: error ack=%v, application keys changed %q", isErr(clean), appDiff), map[string]any{"route": rt.name, "case": tc.name})
+				}
+			} else if !isErr(clean) || len(appDiff) != 0 {
+				c.Violation("transferv2-natural-failure/"+rt.name+"/"+tc.name, fmt.Sprintf("v2 receive with %s: universal error ack=%v, application keys changed %q (expected none)", tc.name, isErr(clean), appDiff), map[string]any{"route": rt.name, "case": tc.name, "changed": appDiff})
+			}
+			for n := 1; n <= W; n++ {
+				fb := &faultBank{BankKeeper: realBank, failAt: n}
+				tk.BankKeeper = fb
+				f := w.Fork()
+				fr := f.RecvV2(1, 0, pkt, f.ClientLatest(1, l.ClientB))
+				tk.BankKeeper = realBank
+				t2Evals++
+				distinct[fmt.Sprintf("transfer-%s/%s/fail-at-%d", rt.name, tc.name, n)] = true
+				if fr.Class != ksim.OK {
+					c.Violation("transferv2-fault-tx-failed/"+rt.name+"/"+tc.name, fmt.Sprintf("bank failure at call %d of %d made the whole v2 receive fail (%s) instead of producing the error acknowledgement", n, W, fr), map[string]any{"route": rt.name, "case": tc.name, "fail_at": n})
+					continue
+				}
+				d := diffOn(w, f, 1)
+				want := []string{recvKey, ackKey}
+				sort.Strings(want)
+				if strings.Join(d, "\x00") != strings.Join(want, "\x00") || !isErr(f) {
+					c.Violation("transferv2-fault-diff/"+rt.name+"/"+tc.name, fmt.Sprintf("bank failure at call %d of %d: changed keys %q (expected exactly receipt and acknowledgement), universal error ack=%v", n, W, d, isErr(f)), map[string]any{"route": rt.name, "case": tc.name, "fail_at": n, "changed": d})
+				}
+			}
+			c.Set("bank_calls_"+rt.name+"_"+tc.name, W)
+		}
+	}
+	c.Set("transferv2_cases", t2Evals)
+	tEvals += t2Evals
 	c.Set("transfer_cases", tEvals)
 	c.Set("evaluations", evals+tEvals)
 	c.Set("distinct_nontrivial", len(distinct))
-	c.Set("rule", "mock stacks: v2 mock application on the client and alias routes with k in 0..3 writes x success/error/async; v1 mock: every (ordering, k1 in 0..3 writes to one module store, k2 writes to another, outcome in success/error/async) x 1-2 packets; transfer stack (rate-limit -> packet-forward -> transfer): fault-free run, then a run failing the n-th fallible bank-keeper call for every n, for native arrival, receive disabled, blocked receiver, invalid receiver and the voucher-return (unescrow) path; distinct = distinct (stack, behaviour, failure position) cases")
+	c.Set("rule", "mock stacks: v2 mock application on the client and alias routes with k in 0..3 writes x success/error/async; v1 mock: every (ordering, k1 in 0..3 writes to one module store, k2 writes to another, outcome in success/error/async) x 1-2 packets; transfer stack (rate-limit -> packet-forward -> transfer): fault-free run, then a run failing the n-th fallible bank-keeper call for every n, for native arrival, receive disabled, blocked receiver, invalid receiver and the voucher-return (unescrow) path; the same four cases with every failure position for the IBC v2 transfer stack (rate-limit v2 -> transfer v2) on the client route and on the alias of the v1 channel; distinct = distinct (stack, behaviour, failure position) cases")
 	c.Sample(map[string]any{"stack": "mock", "ordering": "UNORDERED", "writes": "3+2", "outcome": "error", "expected_diff": "receipt + error ack only"})
 	c.Sample(map[string]any{"stack": "transfer", "case": "native-arrives", "fail_at_bank_call": 1, "expected_diff": "receipt + error ack only"})
 	c.Assume("the failure injector wraps the exported BankKeeper field of the transfer keeper; ICA host failure positions are covered by C37")
